@@ -149,12 +149,50 @@ def fam_spine(names, znames=None):
                                     yield _layout([('r1', ((x, kx, inner),))], ['r1'])
 
 
+def fam_nsclash(names, nroots, kinds='MPN'):
+    """A namespace package x split over nroots sys.path roots with the SAME sub-module name y
+    in every portion (module / regular package / namespace directory per portion), the roots
+    on sys.path in every order (directory names ra, rb, rc: most orders are not alphabetical)."""
+    import itertools
+    dirs = ['ra', 'rb', 'rc'][:nroots]
+    for x in names:
+        for y in names:
+            for ks in itertools.product(kinds, repeat=nroots):
+                roots = [(d, ((x, 'N', ((y, k, None if k == 'M' else ()),)),))
+                         for d, k in zip(dirs, ks)]
+                for path in itertools.permutations(dirs):
+                    yield _layout(roots, list(path))
+
+
+def fam_subdir(names, depths, variants):
+    """Script <name>.py in a plain (no __init__.py) directory d/ or d/e/ below the project
+    root x the root holding, per pool name, nothing / a module / a regular package x optional
+    sibling modules next to the script x Project flavour (default smart sys.path | explicit
+    sys_path=[root] with smart_sys_path=False)."""
+    import itertools
+    for rootkinds in itertools.product(('-', 'M', 'P'), repeat=len(names)):
+        for script in names:
+            others = [n for n in names if n != script]
+            for sib in _subsets(tuple(others)):
+                for depth in depths:
+                    for variant in variants:
+                        root = {n: k for n, k in zip(names, rootkinds) if k != '-'}
+                        sd = '/'.join(['d', 'e'][:depth])
+                        yield {'kind': 'subdir', 'root': root, 'script': script,
+                               'siblings': list(sib), 'depth': depth, 'variant': variant,
+                               'id': 'subdir-script:root=%s|%s/%s.py%s|%s' % (
+                                   ','.join('%s:%s' % (n, root[n]) for n in sorted(root)), sd,
+                                   script, ''.join('+' + m for m in sib), variant)}
+
+
 def families(tier):
     if tier == 'quick':
         return [
             # cheap (flat trees, ~60 core-s together): first, so that a time cap never cuts them
             ('shared-project/2 folders/histories<=3', list(fam_shared(2, ['smart', 'added']))),
             ('shared-project/3 folders/all orders', list(fam_shared(3, ['smart']))),
+            ('namespace-portions-clash/2 roots/both orders', list(fam_nsclash(POOL2, 2))),
+            ('script-in-plain-subdir/smart on+off', list(fam_subdir(POOL2, (1, 2), ('smart', 'plain')))),
             ('single-root<=3 nodes/depth3/pool2', list(fam_single(POOL2, 3, 3))),
             ('two-roots<=3 nodes/depth3/pool2', list(fam_pairs(POOL2, 3, 3))),
             ('nested-root<=3 nodes/depth2/pool2', list(fam_nested(POOL2, 2, 3))),
@@ -163,6 +201,9 @@ def families(tier):
     return [
         ('shared-project/2 folders/histories<=3', list(fam_shared(2, ['smart', 'added']))),
         ('shared-project/3 folders/all orders', list(fam_shared(3, ['smart', 'added']))),
+        ('namespace-portions-clash/2 roots/both orders', list(fam_nsclash(POOL2, 2))),
+        ('namespace-portions-clash/3 roots/all orders', list(fam_nsclash(POOL2, 3, 'MP'))),
+        ('script-in-plain-subdir/smart on+off', list(fam_subdir(POOL3, (1, 2), ('smart', 'plain')))),
         ('single-root<=4 nodes/depth4/pool2', list(fam_single(POOL2, 4, 4))),
         ('two-roots<=4 nodes/depth4/pool2', list(fam_pairs(POOL2, 4, 4))),
         ('nested-root<=4 nodes/depth4/pool2', list(fam_nested(POOL2, 4, 4))),
@@ -656,6 +697,8 @@ def _work(task):
     """task = {'layouts': [layout...], 'only': optional pid}"""
     if task['layouts'] and task['layouts'][0].get('kind') == 'shared':
         return _work_shared(task)
+    if task['layouts'] and task['layouts'][0].get('kind') == 'subdir':
+        return _work_subdir(task)
     jedi = boot.boot()
     env = boot.environment()
     plans = []
@@ -903,6 +946,182 @@ def _work_shared(task):
     return out
 
 
+# ------------------------------------------------------------------------------------------
+# scripts in plain sub-directories of a project (smart sys.path on / off)
+
+def _subdir_statements(names):
+    out = []
+    for n in names:
+        out.append(('import', _Stmt().add('import ').add(n, ('mod', 0, n))))
+        out.append(('import-as', _Stmt().add('import ').add(n, ('mod', 0, n)).add(' as ').add(
+            'c', ('bind', 'c', None))))
+        out.append(('from-import', _Stmt().add('from ').add(n, ('mod', 0, n)).add(
+            ' import ').add(DEFNAME, ('bind', DEFNAME, None))))
+    return [(form, st.text, [p[:-1] + [1, p[-1]] for p in st.probes]) for form, st in out]
+
+
+def _work_subdir(task):
+    jedi = boot.boot()
+    env = boot.environment()
+    _check_env_has_no_pool_names(env)
+    plans = []
+    docs = []
+    for spec in task['layouts']:
+        base = _fresh_base()
+        proj = os.path.join(base, 'proj')
+        os.makedirs(proj)
+        for n, k in spec['root'].items():
+            f = os.path.join(proj, n + '.py')
+            if k == 'P':
+                os.makedirs(os.path.join(proj, n))
+                f = os.path.join(proj, n, '__init__.py')
+            with open(f, 'w') as fh:
+                fh.write(BASE_SRC)
+        parts = ['d', 'e'][:spec['depth']]
+        sdir = os.path.join(proj, *parts)
+        os.makedirs(sdir)
+        for m in [spec['script']] + spec['siblings']:
+            with open(os.path.join(sdir, m + '.py'), 'w') as fh:
+                fh.write(BASE_SRC)
+        script = os.path.join(sdir, spec['script'] + '.py')
+        # reference model of the search path jedi documents for this Project flavour:
+        # smart = project root, (environment), then every __init__-less directory between the
+        # root and the script, outermost first; plain = exactly the configured list
+        if spec['variant'] == 'smart':
+            project = jedi.Project(proj)
+            conf = [proj] + [os.path.join(proj, *parts[:i + 1]) for i in range(len(parts))]
+        else:
+            project = jedi.Project(proj, sys_path=[proj], smart_sys_path=False)
+            conf = [proj]
+        names = tuple(sorted(set(POOL2) | set(spec['root']) | {spec['script']} | set(spec['siblings'])))
+        stmts = _subdir_statements(names)
+        rec = {}
+        try:
+            c = jedi.Script(path=script, project=project, environment=env).get_context()
+            rec['ctx'] = c.full_name if c.type == 'module' else '?' + str(c.type)
+        except Exception as e:
+            rec['ctx_exc'] = [canon.exc_site(e), canon.short_tb(e)]
+        _forget(base, script)
+        cands = ['.'.join(parts[i:] + [spec['script']]) for i in range(len(parts) + 1)]
+        if rec.get('ctx') and not rec['ctx'].startswith('?') and rec['ctx'] != '__main__' \
+                and rec['ctx'] not in cands:
+            cands.append(rec['ctx'])
+        mods = [spec['script']] + spec['siblings']
+        pre = sorted(set(spec['root']) | set(mods) | {'.'.join(parts[:i + 1]) for i in range(len(parts))}
+                     | {'.'.join(parts + [m]) for m in mods})
+        docs.append({'tid': base, 'sys_path': conf, 'names': cands, 'file_names': [[script, cands]],
+                     'preimport': pre,
+                     'programs': [{'pid': text, 'file': script, 'main': True, 'src': child_src(text),
+                                   'probes': [[q[0], q[1], q[2]] for q in probes]}
+                                  for form, text, probes in stmts]})
+        plans.append((spec, base, proj, script, project, conf, stmts, rec))
+    res = run_child(docs, POOL3)
+    out = {'fails': [], 'counts': {}, 'classes': set(), 'layouts': len(plans), 'samples': {}}
+
+    def inc(k, n=1):
+        out['counts'][k] = out['counts'].get(k, 0) + n
+
+    for spec, base, proj, script, project, conf, stmts, rec in plans:
+        ch = res['trees'][base]
+        pdesc = 'jedi.Project(%r)' % proj if spec['variant'] == 'smart' else \
+            'jedi.Project(%r, sys_path=[%r], smart_sys_path=False)' % (proj, proj)
+        # derived dotted name of the script imports back (with the configured search path)
+        valid = ch['valid'].get(script, [])
+        if 'ctx_exc' in rec:
+            out['fails'].append({'site': 'subdir-script/' + rec['ctx_exc'][0], 'layout': spec,
+                                 'input': spec['id'] + '|name|ctx',
+                                 'detail': _rel({'file': script, 'traceback': rec['ctx_exc'][1]}, base)})
+        elif valid:
+            inc('name-judged')
+            got = ch['names'].get(rec['ctx'])
+            if got != ['module', script]:
+                out['fails'].append({
+                    'site': 'subdir-script/dotted-name-does-not-import-back@get_context.full_name',
+                    'input': spec['id'] + '|name|ctx', 'layout': spec,
+                    'detail': _rel({'project': pdesc, 'file': script, 'configured_sys_path': conf,
+                                    'jedi_name': rec['ctx'], 'child_imports_that_name_to': got,
+                                    'names_importing_this_file': valid}, base)})
+        else:
+            inc('name-unjudged(file not importable under any name: shadowed)')
+        for form, text, probes in stmts:
+            inc('programs')
+            exp = ch['programs'][text]['__main__']
+            exp = {c: exp.get(c, exp['A']) for c in CONDS}
+            if any('harness' in exp[c] for c in CONDS):
+                raise RuntimeError('oracle gave no answer for %s: %r' % (text, exp))
+            obs = None
+            try:
+                sc = jedi.Script(text + '\n', path=script, project=project, environment=env)
+            except Exception as e:
+                obs = {'exc': [canon.exc_site(e), canon.short_tb(e)]}
+            accepts = []
+            for k, pr in enumerate(probes):
+                a = []
+                for c in CONDS:
+                    if exp[c]['probes'][k] not in a:
+                        a.append(exp[c]['probes'][k])
+                accepts.append(a)
+            self_import = any(pr[0] == 'mod' and ['module', script] in a
+                              for pr, a in zip(probes, accepts))
+            for k, pr in enumerate(probes):
+                accept = accepts[k]
+                label = '%s:%s@%d,%d' % (pr[0], pr[2] if pr[0] == 'mod' else pr[1], pr[3], pr[4])
+                for m, kw in METHODS:
+                    inc('queries')
+                    iid = '%s|%s|%s|%s' % (spec['id'], text, label, m)
+                    o = obs
+                    if o is None:
+                        try:
+                            cs = []
+                            for d in getattr(sc, m)(pr[3], pr[4], **kw):
+                                c = _canon_name(d)
+                                if c not in cs:
+                                    cs.append(c)
+                            o = sorted(cs, key=json.dumps)
+                        except Exception as e:
+                            o = {'exc': [canon.exc_site(e), canon.short_tb(e)]}
+                    detail = _rel({'project': pdesc, 'issuing_file': script, 'code': text,
+                                   'position': [pr[3], pr[4]], 'configured_sys_path': conf,
+                                   'python': accept, 'jedi': o, 'tree': spec['id']}, base)
+                    if isinstance(o, dict):
+                        out['fails'].append({'site': 'subdir-script/' + o['exc'][0], 'input': iid,
+                                             'layout': spec,
+                                             'detail': dict(detail, traceback=o['exc'][1])})
+                        continue
+                    if pr[0] == 'bind' and self_import:
+                        inc('unjudged(binding taken from the issuing file imported under another '
+                            'name: buffer versus file on disk)')
+                        continue
+                    if any(e[0] in ('error', 'other', 'beyond') for e in accept):
+                        inc('unjudged(unexpected python outcome)')
+                        continue
+                    inc('judged-strict' if len(accept) == 1 else 'order-dependent(either accepted)')
+                    inc('expect:subdir-%s/%s' % (form, '|'.join(sorted({e[0] for e in accept}))))
+                    okay = any((o == [] if e == ['none'] else o == [e]) for e in accept)
+                    out['classes'].add(('subdir-' + form, spec['variant'], pr[0],
+                                        tuple(sorted({e[0] for e in accept})),
+                                        tuple(x[0] for x in o), okay))
+                    if okay:
+                        if accept[0] != ['none']:
+                            out['samples'].setdefault('subdir-' + form, dict(detail))
+                        continue
+                    if o == []:
+                        site = 'unresolved@' + m
+                    elif all(e == ['none'] for e in accept):
+                        site = 'resolved-but-python-finds-nothing@' + m
+                    else:
+                        site = 'wrong-target@' + m
+                    out['fails'].append({'site': 'subdir-script/' + site, 'input': iid,
+                                         'layout': spec, 'detail': detail})
+            sc = None
+            _forget(base, script)
+        _forget(base)
+        if not os.environ.get('JV_KEEP_SCRATCH'):
+            shutil.rmtree(base, ignore_errors=True)
+    out['classes'] = sorted(map(repr, out['classes']))
+    return out
+
+
 def _batches(layouts, size, tier):
     return [{'layouts': layouts[i:i + size], 'tier': tier} for i in range(0, len(layouts), size)]
 
@@ -943,7 +1162,7 @@ def run(ctx):
             for f in r['fails']:
                 pid = None
                 parts = f['input'][len(f['layout']['id']) + 1:]
-                if not parts.startswith('name:') and f['layout'].get('kind') != 'shared':
+                if not parts.startswith('name:') and f['layout'].get('kind') not in ('shared', 'subdir'):
                     pid = '|'.join(parts.split('|')[:2])
                 ctx.violation(f['site'], f['input'], f['detail'],
                               {'layout': f['layout'], 'pid': pid, 'input': f['input'],
